@@ -11,7 +11,14 @@ Open Scope N_scope.
 
 Definition name := N.
 
-Inductive ty := TInt (lo hi : Z) | TStr (n : N).
+Inductive ty := TInt (lo hi : Z) | TStr (n : N) | TEnum (members : list (list N)).
+
+Fixpoint bytes_eqb (a b : list N) : bool :=
+  match a, b with
+  | [], [] => true
+  | x :: a', y :: b' => N.eqb x y && bytes_eqb a' b'
+  | _, _ => false
+  end.
 Record col := mkc { cn : name; cty : ty; cnullable : bool }.
 Inductive val := VNull | VInt (z : Z) | VStr (s : list N).
 
@@ -21,10 +28,11 @@ Definition conv (c : col) (v : val) : option val :=
   | VNull => if cnullable c then Some VNull else None
   | VInt z => match cty c with
               | TInt lo hi => if (lo <=? z)%Z && (z <=? hi)%Z then Some (VInt z) else None
-              | TStr _ => None
+              | TStr _ | TEnum _ => None
               end
   | VStr s => match cty c with
               | TStr n => if N.of_nat (length s) <=? n then Some (VStr s) else None
+              | TEnum ms => if existsb (bytes_eqb s) ms then Some (VStr s) else None   (* stored by member string *)
               | TInt _ _ => None
               end
   end.
